@@ -985,7 +985,8 @@ func (self *Analyzer) callExpression(node pAst.CallExpression) ast.AnalyzedCallE
 
 	// If this is a thread spawn, create a thread handle as the result
 	// TODO: migrate this to the `core-lib` and reference the type from here
-	if node.IsSpawn {
+	// (if the base cannot be called, there is no result type to wrap: the error was reported above)
+	if node.IsSpawn && thisExpressionResultsIn != nil {
 		thisExpressionResultsIn = ast.NewObjectType([]ast.ObjectTypeField{
 			ast.NewObjectTypeField(
 				pAst.NewSpannedIdent("join", node.Span()), ast.NewFunctionType(
